@@ -242,6 +242,12 @@ type rec struct {
 
 func randRec(c *core.Ctx, withQual bool) rec {
 	r := rec{ID: gen.RandID(c.Rng, c.Rng.Intn(3) == 0)}
+	if c.Rng.Intn(10) == 0 {
+		// identifiers are not always ASCII; what ends an identifier on a title line is a space or a
+		// tab, not every character that Unicode classifies as white space
+		at := c.Rng.Intn(len(r.ID) + 1)
+		r.ID = r.ID[:at] + string([]rune{0x00A0, 0x2009, 0x202F, 0x3000, 0x00E9, 0x03A9, 0x2028, 0x0085}[c.Rng.Intn(8)]) + r.ID[at:]
+	}
 	l := []int{1, 2, 59, 60, 61, 119, 120, 121, 1 + c.Rng.Intn(200)}[c.Rng.Intn(9)]
 	r.Seq = string(gen.DNAIupac(c.Rng, l, []int{0, 100}[c.Rng.Intn(2)]))
 	if withQual {
